@@ -38,6 +38,16 @@ CHECKS = {
  "C18": ("exploration", "CONF", "exhaustive product shape x dtype x constant x gradient kind x tensor kind x file kind of save/load round trips on the real library",
          "Every cell of the lattice (incl. 0-d, empty, int/bool/float16, view gradients, BytesIO and file objects) is round-tripped and compared; the source tensor's observable state must be unchanged.",
          "files under /dev/shm or the default temp dir", "3/C18"),
+
+ "C06": ("model_checking", "HIST", "explicit-state exploration of all view/consumer histories <= depth over 4 base shapes (C and F order) x every permutation of the order in which consumers are added to the terminal (the schedule that decides which op back-propagates into a base first); oracle on view/base gradients after backward",
+         "Every history of view chains and consumers up to the bound, under every ordering of the gradient contributions, is executed; each view's gradient must be the corresponding view of its base's gradient (value, memory sharing, write-through, None-ness) and unrelated gradients must not alias.",
+         "expected view of the base gradient addressed through integer tag arrays riding the same NumPy view ops", "3/C06"),
+ "C10": ("model_checking", "PROG", "bounded-exhaustive enumeration of all programs <= n statements x 36 leaf-kind assignments x constant=None/True/False on every statement, executed on the real library; rule-based oracle for .constant plus differential run with constants replaced by ndarrays",
+         "Every program up to the bound under every assignment of constant/non-constant flags and dtypes is executed; the documented rule for .constant, rejection of constant=False for integer results, absence of gradients on constants, and equality of all other gradients with the array-replaced program are checked.",
+         "programs <= 2-3 statements over function-form ops that accept constant=; statements NumPy itself rejects are skipped", "3/C10"),
+ "C16": ("exploration", "CONF", "exhaustive product of shape/layout/window/step/dilation cells for sliding_window_view (valid and invalid), full 1-D and representative 2-D stride/padding/dilation products for conv_nd and max_pool, small lattices for batchnorm/softmax/gru/losses, each against element-by-element evaluation of the documented formula",
+         "Every cell is executed on the real layer and compared with a naive nested-loop evaluation; acceptance is compared with the validity predicate stated in the property (valid => formula, invalid => raises), and the sliding-window view's read-only flag and byte bounds are checked.",
+         "float64; gru only for dropout=0; sides <= 4-5", "3/C16"),
 }
 NA = {}
 def main():
